@@ -8,7 +8,7 @@
 From Goloop Require Export lib.Bytes Model_Authenticator.
 Open Scope N_scope.
 
-Record truth := {
+Record truth := mkT {
   t_pub : option bytes;     (* uncompressed 65-byte form of the presented key, None = not a key *)
   t_hcontent : bytes;       (* SHA3-256 of the content / of this session's secret *)
   t_hpub : bytes;           (* SHA3-256 of the 64 coordinate bytes *)
@@ -58,17 +58,14 @@ Definition check (c : case) : bool :=
   | CHandle server self wait sub extra m t oclosed onext oid oresp =>
       let p := {| p_wait := wait; p_extra := extra; p_id := None; p_closed := false; p_next := false |} in
       let pub := msg_pub m in
-      (* the dispatch of Authenticator.onPacket on the sub protocol *)
-      if server then
-        if sub =? SUB_SIGREQ then
-          let '(p', r) := on_sigreq bytes (iH extra t) (iparse pub t) (fun u => u) (iverify t) self p m in
-          Bool.eqb (p_closed p') oclosed && Bool.eqb (p_next p') onext && obytes_eqb (p_id p') oid && obool_eqb r oresp
-        else false
-      else
-        if sub =? SUB_SIGRESP then
-          let p' := on_sigresp bytes (iH extra t) (iparse pub t) (fun u => u) (iverify t) p m in
-          Bool.eqb (p_closed p') oclosed && Bool.eqb (p_next p') onext && obytes_eqb (p_id p') oid && obool_eqb None oresp
-        else false
+      (* the dispatch of Authenticator.onPacket on the sub protocol (whatever the role) *)
+      if sub =? SUB_SIGREQ then
+        let '(p', r) := on_sigreq bytes (iH extra t) (iparse pub t) (fun u => u) (iverify t) self p m in
+        Bool.eqb (p_closed p') oclosed && Bool.eqb (p_next p') onext && obytes_eqb (p_id p') oid && obool_eqb r oresp
+      else if sub =? SUB_SIGRESP then
+        let p' := on_sigresp bytes (iH extra t) (iparse pub t) (fun u => u) (iverify t) p m in
+        Bool.eqb (p_closed p') oclosed && Bool.eqb (p_next p') onext && obytes_eqb (p_id p') oid && obool_eqb None oresp
+      else false
   end.
 
 Definition mismatches (l : list case) : list nat := failing check l.
